@@ -180,8 +180,10 @@ def run_batch(prop, tier, batch_seed, nruns=None, workers=None, wall_limit=None,
         pass
     print(f"[{prop}] tier={tier} seed={batch_seed} runs={len(executed)}/{nruns} skipped={len(skipped)} workers={workers} wall={wall:.1f}s "
           f"violations={len(unknown)} known={sum(h['count'] for h in known_hits.values())} harness_errors={len(harness_errors)}", file=out)
-    for kid, h in known_hits.items():
-        print(f"KNOWN-FINDING: property={prop} {kid}: {h['entry']['text']} (matched {h['count']} violations in {len(h['runs'])} runs, first seed {h['first_seed']})", file=out)
+    for e in known:  # one line per open listed finding of this property, whether or not this batch ran into it
+        h = known_hits.get(e["id"])
+        seen = (f"matched {h['count']} violations in {len(h['runs'])} runs, first seed {h['first_seed']}" if h else "not encountered in this batch")
+        print(f"KNOWN-FINDING: property={prop} {e['id']}: {e['text']} ({seen})", file=out)
     if harness_errors:
         for h in harness_errors[:5]:
             print("HARNESS-ERROR:", h, file=out)
